@@ -1,5 +1,6 @@
 import Driver.Common
 import Driver.C10
+import Driver.C20
 /-!
 Line protocol of the model driver: one JSON object per input line, `{"f": <function>, …}`,
 one JSON value per output line.  Stateless: every line carries all it needs.
@@ -7,7 +8,8 @@ one JSON value per output line.  Stateless: every line carries all it needs.
 open Lean Driver
 
 def handlers : List (String → Json → Option Json) :=
-  [ Driver.C10.handle ]
+  [ Driver.C10.handle,
+    Driver.C20.handle ]
 
 def dispatch (line : String) : Json :=
   match Json.parse line with
